@@ -1,6 +1,7 @@
 import XixiKV.Proofs.EnginePolicy
 import XixiKV.Properties.C01
 import XixiKV.Properties.C05
+import XixiKV.Proofs.TransEq
 /-!
 # C17 (second half) — the data-file size limit and the estimate it rests on
 
@@ -446,5 +447,13 @@ private def firstViol (kOf : Nat → Nat) (b : Nat) (hfix : Option Nat) (qmin qm
 
 /-! ## axioms -/
 
+
+/-- `GetLogRecordDiskSize` as TRANSLATED from /repo's current source (`Generated/Trans.lean`, 64-bit
+    wrap-around arithmetic) is the model's `diskSizeEstimate` — the estimate whose soundness
+    (`estimate ≥ bytes occupied`) the file-size-limit theorems above rest on. -/
+theorem C17_translated_size_estimate (keySize valueSize : Nat) (hk : keySize < 2^61) (hv : valueSize < 2^61) :
+    Generated.Trans.datafile.GetLogRecordDiskSize (keySize : Int) (valueSize : Int)
+      = (Record.diskSizeEstimate keySize valueSize : Int) :=
+  TransEq.trans_GetLogRecordDiskSize_eq keySize valueSize hk hv
 
 end XixiKV.C17
